@@ -193,6 +193,7 @@ def configure(eng):
 UST, CST, DST = f'{UP}:UploadSubmissionTask', f'{CP}:CopySubmissionTask', f'{DL}:DownloadSubmissionTask'
 ROOTS = [
     f'{TM}.__init__', f'{MG}:TransferConfig._validate_attrs_are_nonzero', f'{BE}.submit', f'{TSEM}.acquire', f'{TSEM}.release',
+    f'{SWS}.acquire', f'{SWS}.release',
     f'{UST}._submit_upload_request', f'{UST}._submit_multipart_request', f'{CST}._submit', f'{CST}._submit_copy_request',
     f'{CST}._submit_multipart_request', f'{DST}._submit', f'{DST}._submit_download_request', f'{DST}._submit_ranged_download_request',
     f'{DE}:DeleteSubmissionTask._submit',
